@@ -222,6 +222,8 @@ def case_spec(draw, algo=None):
             seq = [[j, {k: draw(st.sampled_from([1, 1, 0, -1])) for k in w_}] for j, w_ in seq]
             spec["weights_via"] = "weigh_target_int"
         spec["sequence"] = seq
+        # the target as the caller happens to hold it: a Python float, or a numpy scalar out of some array
+        p["target_as"] = draw(st.sampled_from(["float", "float", "float64", "float32"]))
     elif algo == "PTE_Rebalance":
         p["cap"] = draw(st.sampled_from([0.0, 0.001, 0.01, 0.05, 0.2, 10.0]))
         p["lookback"] = lb
@@ -507,7 +509,14 @@ def case_weigh(ctx, spec):
                     raise Violation("LimitDeltas(%s) changed %s although its delta %r is within the limit: %r -> %r" % (p["limit"], k, tgt - cur, tw0[k], w.get(k)), signature=sig + ":changed")
         return {"nontrivial": limited, "labels": labs + (["limited"] if limited else [])}
     if name == "TargetVol":
-        algo = A.TargetVol(p["target"], lookback=interp.mk_offset(p["lookback"]), lag=interp.mk_offset(p["lag"]), covar_method=p["covar_method"], annualization_factor=p["af"])
+        if p.get("target_as") == "float32":
+            p = dict(p, target=float(np.float32(p["target"])))
+            tv_arg = np.float32(p["target"])
+        elif p.get("target_as") == "float64":
+            tv_arg = np.float64(p["target"])
+        else:
+            tv_arg = p["target"]
+        algo = A.TargetVol(tv_arg, lookback=interp.mk_offset(p["lookback"]), lag=interp.mk_offset(p["lag"]), covar_method=p["covar_method"], annualization_factor=p["af"])
         nt_any = False
         for j, w0 in spec["sequence"]:
             for d in b.dates[: j + 2]:
